@@ -41,7 +41,7 @@ ASSUMPTIONS = [
     'defaults as well: the oracle compares accordingly',
 ]
 FLOORS = {
-    'family:native': 0.2,
+    'family:native': 0.15,
     'family:function': 0.12,
     'family:class-wrapped': 0.2,
     'params-changed-at-import': 0.2,
